@@ -137,6 +137,67 @@ func runC18(x *X) {
 		x.Nontrivial(fmt.Sprint(w, wide, hdr))
 		compareTextTable(x, "C18", tg, namedDecor("ascii-simple"), []string{"padding_widths", fmt.Sprintf("width:%d", w)})
 	})
+	// cells whose text does not come from a string item: the cell's declared size must still be that of the text it shows
+	type itemCase struct {
+		name string
+		item interface{}
+	}
+	items := []itemCase{{"rune 'a'", 'a'}, {"rune LF", '\n'}, {"rune NUL", rune(0)}, {"wide rune", 'ｗ'}, {"combining rune", '\u0301'}, {"zero-width rune", '\u200b'},
+		{"int32(-1) (not a code point)", int32(-1)}, {"rune 0x110000 (beyond Unicode)", rune(0x110000)}, {"surrogate 0xD800", rune(0xD800)}, {"rune 0xFFFD", '\uFFFD'}, {"rune DEL", rune(0x7f)}, {"rune TAB", '\t'},
+		{"int", 12345}, {"negative float", -1.5}, {"nil", nil}, {"bool", true}, {"[]string", []string{"a", "b"}}, {"error with two lines", myErr{"l1\nline-two"}}, {"byte", byte('x')}}
+	x.Explore("non-string-items", ExploreOpts{ShardDepth: 1, Bound: fmt.Sprintf("%d items that are not strings (runes incl. non-code-points, numbers, nil, slices, errors): cell size vs the text shown, and a one-cell text table", len(items))}, func(c *Chooser) {
+		ic := items[c.Choose(len(items))]
+		hdr := c.Bool()
+		cell := tabular.NewCell(ic.item)
+		s := cell.String()
+		lines := length.Lines(s)
+		mc := 0
+		for _, l := range lines {
+			if w := length.StringCells(l); w > mc {
+				mc = w
+			}
+		}
+		c.Logf("NewCell(%s) shows %q", ic.name, s)
+		x.Transition(1)
+		x.Nontrivial(ic.name + fmt.Sprint(hdr))
+		tags := append(c18Tags(s), "non_string_item")
+		x.Clause("C18.cell")
+		if cell.Height() != len(lines) {
+			x.Fail("C18.cell", tags, "NewCell(%s) shows %q: Height()=%d but the text has %d lines", ic.name, s, cell.Height(), len(lines))
+		}
+		if cell.TerminalCellWidth() != mc {
+			x.Fail("C18.cell", tags, "NewCell(%s) shows %q: TerminalCellWidth()=%d but its longest line is %d cells", ic.name, s, cell.TerminalCellWidth(), mc)
+		}
+		if !c18SelfConsistent(s) {
+			return
+		}
+		tg := &TGrid{}
+		if hdr {
+			tg.HasHeader, tg.Header = true, []TCell{{Text: s}}
+			tg.Rows = []TRow{{Cells: []TCell{{Text: "x"}}}}
+		} else {
+			tg.Rows = []TRow{{Cells: []TCell{{Text: s}}}, {Cells: []TCell{{Text: "xy"}}}}
+		}
+		tt := texttable.New()
+		if hdr {
+			tt.AddHeaders(ic.item)
+			tt.AddRowItems("x")
+		} else {
+			tt.AddRowItems(ic.item)
+			tt.AddRowItems("xy")
+		}
+		dc := namedDecor("ascii-simple")
+		if err := dc.Apply(tt); err != nil {
+			panic("harness: " + err.Error())
+		}
+		var out string
+		var err error
+		if p, val, site := Safe(func() { out, err = tt.Render() }); p {
+			x.FailSite("C18.layout_emit", append(tags, "panic"), site, "rendering a table holding %s panicked: %v", ic.name, val)
+			return
+		}
+		judgeTextTable(x, "C18", tg, dc, tags, out, err)
+	})
 	maxLen := x.Pick(5, 7)
 	ascii := "ascii-simple"
 	x.Explore("strings", ExploreOpts{ShardDepth: 3, Bound: fmt.Sprintf("all strings of <=%d atoms over %d atoms", maxLen, len(c18Atoms))}, func(c *Chooser) {
